@@ -81,7 +81,7 @@ CHECKS.update({
    "DESIGN.md 5/C16"),
  "C17": ("pubmon", "exploration",
    "reference-model monitor + history check: forwarding presence/recipients/payload and exactly-once Create over repeated deliveries",
-   "Random inbox activities with mixed addressing (including addressees without an id) and reply chains (embedded and dereferenced, with anonymous embedded siblings, depth 0..5, owned id at a random level) are delivered 1..3 times to one or two inboxes under depth limits 1..4 and three filters; the forwarding BatchDeliver is compared with a model of the three conditions, and the activity must be created exactly once over the history.",
+   "Random inbox activities with mixed addressing (including addressees without an id) and reply chains (embedded and dereferenced, with anonymous embedded siblings, depth 0..5, owned id at a random level) are delivered 1..3 times to one or two inboxes under depth limits 1..4 and three filters; the forwarding BatchDeliver is compared with a model of the three conditions, and the activity must be created exactly once over the history; every forwarding history is replayed with the recording itself failing, and with each of up to six later steps (ownership, stored value, filter, transport) failing and the delivery repeated: the record made before the failure stands, nothing is forwarded twice.",
    "Trusted: internal/sim; recipients judged as the set of member ids handed to the transport.",
    "DESIGN.md 5/C17"),
  "C20": ("pubmon", "exploration",
